@@ -1,4 +1,4 @@
-(* SQLM - model of DBStorage.add_event (nostr_relay/storage/db.py): Event(**json),
+(* SQLM - model of DBStorage.add_event (nostr_relay/storage/db.py): Event(json),
    validators, can_do, and ONE transaction: pre_save (NIP-16/33 replacement),
    INSERT OR IGNORE, post_save (kind 0/3 cleanup, process_tags: tag rows, NIP-09 deletes);
    any exception rolls the transaction back; notification only after commit and only
